@@ -26,6 +26,13 @@ def inputsCounted (exprs : List OSeg) (o : BindObs) : Bool :=
   if !(o.prepOk && o.bindOk) || o.mode == "none" || !exprs.all (·.kind == .member) then true
   else o.params.length == exprs.length
 
+/-- `Driver/L2.lean`, C04: an insert the implementation accepts although the model rejects it
+    because a member of one of its rows lies behind a nil embedded pointer cannot be
+    row-faithful (the rejection itself is C08's subject) -/
+def nilEmbAccepted (m : BindModel) (o : BindObs) (segs : List OSeg) : Bool :=
+  (match m.bind with | .error cls => cls == "nil-embedded-pointer" | .ok _ => false) &&
+    o.prepOk && o.bindOk && (kindProps segs).contains "C04"
+
 namespace Rt
 
 /-- `Driver/Rt.lean`, `rowsIffOutputs` (C05, last sentence, as Get and Run show it): a statement
